@@ -396,7 +396,7 @@ impl C17 {
             _ => None,
         };
         let corridor = match kind {
-            26 | 27 | 29 | 30 => Some(gen_dispatch_case(g, 2, &CorridorOpts { max_stages: 5, max_seg: 8000.0, ..Default::default() })),
+            26 | 27 | 29 | 30 => Some(gen_dispatch_case(g, 2, &CorridorOpts { max_stages: 5, max_seg: 8000.0, p_branch: 0.3, ..Default::default() })),
             _ => None,
         };
         C17Case { kind, fmt, state, k, total, units, pdct: g.int(0, 1) as u8, trace, train, corridor, special: g.int(0, 3) as u8 }
